@@ -41,7 +41,7 @@ def gen_address(rng, for_write):
                 return case(f"{t}{f}:{elem}") + "{%d}" % cnt
         return case(f"{t}{f}:{elem}")
     if r < 0.45:
-        t = rng.choice("NB")
+        t = rng.choice("NB") if for_write else rng.choice("NBL")
         return case(f"{t}{rng.choice(FILES[t])}:{elem}/{rng.randrange(16)}")
     if r < 0.60:
         return case(f"B{rng.choice(FILES['B'])}/{rng.choice([0, 1, 15, 16, 17, 31, 32, 255, 256, 4080, 4094, 4095, rng.randrange(4096)])}")
@@ -68,6 +68,7 @@ def gen_bad(rng):
         f"B3/{rng.choice([4096, 5000, 9999])}", f"B0/5", f"B{rng.choice([256, 999])}/5", f"F8:{rng.choice([256, 999])}", f"L12:{rng.choice([256, 1000])}",
         f"{rng.choice('DEGHJKQUVWXYZ')}7:1", f"S:{rng.choice([256, 999])}", f"S:1/{rng.choice([16, 20])}", f"I:{rng.choice([256, 999])}", f"O:1/{rng.choice([16, 99])}",
         f"T{rng.choice([0, 256])}:1.PRE", f"C5:{rng.choice([256, 999])}.ACC", f"B3:1/{rng.choice([16, 44])}",
+        f"{rng.choice('NBL')}0:{rng.randrange(4)}/{rng.randrange(16)}", f"{rng.choice('nb')}0:1/3", f"F0:1", f"L{rng.choice([256, 300])}:1/2",
     ])
 
 
